@@ -167,7 +167,12 @@ def _pair(ctx, c1, runs1, c2, runs2, kind):
         except Exception as e:
             bad('constructor-iterable:%s:raises-%s' % (form, type(e).__name__), 'Group(%r, <%s of %r>) raised %s' % (c1, form, p1, e))
             continue
-        if not (G == A and A == G and hash(G) == hash(A) and G.name == A.name):
+        try:
+            same = (G == A and A == G and hash(G) == hash(A) and G.name == A.name)
+        except Exception as e:
+            bad('constructor-iterable:%s:unusable-%s' % (form, type(e).__name__), 'Group(%r, <%s of %r>) cannot be compared: %s' % (c1, form, p1, e))
+            continue
+        if not same:
             bad('constructor-iterable:%s' % form, 'Group(%r, <%s of %r>) = %r, from the list %r' % (c1, form, p1, G, A))
     if src != list(p1):
         bad('constructor-changes-callers-list', 'the list %r given to Group() is now %r' % (p1, src))
